@@ -14,7 +14,8 @@ RULE = ("every expression of depth<=1 over 29 leaves (constants incl. 64-bit bou
         "+ - * unary- $max(1-3) ?: == != < <= > >= && || $upper_bound $lower_bound, each compiled by the real front end and "
         "every IR node checked on every environment of its variables (all values of domains <=20 values, corner alphabets "
         "otherwise). Non-trivial = accepted expression with a variable whose environments give >=2 distinct values; distinct by text.")
-ASSUMPTIONS = ["big-integer evaluator in checks/c05.py (over the IR tree) and the generator's own AST evaluator agree (checked)",
+ASSUMPTIONS = ["accepted expressions are also executed in generated C++ (UBSan) on corner environments: 40 per work unit in quick, all in thorough",
+               "big-integer evaluator in checks/c05.py (over the IR tree) and the generator's own AST evaluator agree (checked)",
                "64-bit and 8-bit leaves are explored on corner alphabets, not all values"]
 TIMEOUT = 3000
 
@@ -446,6 +447,149 @@ def _conds_two_sided(a, vs):
     return all(_conds_two_sided(x, vs) for x in a[1:])
 
 
+# ---------- C++ execution of accepted expressions (the bounds choose the C++ types)
+CORNER = {}
+for _v, (_k, _d, _dom) in VARS.items():
+    lo, hi = min(_dom), max(_dom)
+    CORNER[_v] = sorted(set(x for x in (lo, lo + 1, -1, 0, 1, 2, hi - 1, hi) if lo <= x <= hi and (_v not in ("b5", "b7") or x in _dom)))
+VAR_ORDER = list(VARS)
+
+CPP = r'''
+#include <cstdio>
+#include <cstring>
+#include <cstdint>
+#include <string>
+#include <type_traits>
+#include "prog.emb.h"
+#include "ref_bits.h"
+namespace G = ::emboss_generated_code;
+template <class T> static void put(std::string &o, T v) {
+  char b[48];
+  if (std::is_same<T, bool>::value) { o += v ? "T" : "F"; return; }
+  if (std::is_signed<T>::value) std::snprintf(b, sizeof b, "%lld", (long long)v); else std::snprintf(b, sizeof b, "%llu", (unsigned long long)v);
+  o += b;
+}
+static const int NV = @NV@;
+static const long long CORNERS[@NV@][8] = { @CORNERS@ };
+static const int NCORNER[@NV@] = { @NCORNER@ };
+static void encode(unsigned char *buf, int *pa, int *pb, const long long *val) {
+  using namespace refbits;
+  std::memset(buf, 0, 28);
+  // order: @ORDER@
+  put_bits(buf, 4, kLE, 0, 1, (u128)val[0]);
+  put_bits(buf, 4, kLE, 1, 2, (u128)val[1]);
+  put_bits(buf, 4, kLE, 3, 3, (u128)val[2]);
+  put_bits(buf, 4, kLE, 6, 2, (u128)(val[3] & 3));
+  put_bits(buf, 4, kLE, 8, 3, (u128)(val[4] & 7));
+  put_bits(buf, 4, kLE, 11, 5, encode_bcd((u128)val[5], 5));
+  put_bits(buf, 4, kLE, 16, 7, encode_bcd((u128)val[6], 7));
+  buf[4] = (unsigned char)val[7];
+  buf[5] = (unsigned char)val[8];
+  unsigned long long u = (unsigned long long)val[9]; for (int i = 0; i < 8; ++i) buf[8 + i] = (unsigned char)(u >> (8 * i));
+  unsigned long long s = (unsigned long long)val[10]; for (int i = 0; i < 8; ++i) buf[16 + i] = (unsigned char)(s >> (8 * i));
+  *pa = (int)val[11]; *pb = (int)val[12];
+  unsigned long long w = (unsigned long long)val[13]; for (int i = 0; i < 4; ++i) buf[24 + i] = (unsigned char)(w >> (8 * i));
+}
+#define RUN(K, NAME, MASK) { \
+  std::string o; char hb[32]; std::snprintf(hb, sizeof hb, "E%d", K); o += hb; \
+  int idx[NV]; for (int i = 0; i < NV; ++i) idx[i] = 0; \
+  for (;;) { \
+    long long val[NV]; for (int i = 0; i < NV; ++i) val[i] = ((MASK >> i) & 1) ? CORNERS[i][idx[i]] : ((i == 9 || i == 10 || i == 13) ? 0 : (i == 5 || i == 6 ? 0 : 0)); \
+    unsigned char buf[28]; int pa, pb; encode(buf, &pa, &pb, val); \
+    auto view = G::MakeFooView(pa, pb, static_cast<const unsigned char *>(buf), (size_t)28); \
+    auto x = view.NAME(); o += ' '; if (x.Ok()) put(o, x.Read()); else o += 'x'; \
+    int k = 0; while (k < NV) { if (!((MASK >> k) & 1)) { ++k; continue; } if (++idx[k] < NCORNER[k]) break; idx[k] = 0; ++k; } \
+    if (k >= NV) break; \
+  } \
+  std::puts(o.c_str()); }
+int main() {
+@RUNS@
+  return 0;
+}
+'''
+
+
+def cpp_phase(asts, labels):
+    """Compiles the accepted expressions into one module + driver, runs every corner environment of each
+    expression's variables in C++ and compares with the big-integer evaluation.  Returns violations."""
+    import os
+    from vk import cppdrv
+    src = module_text(asts)
+    headers, err, ex = cppdrv.compile_headers({"m.emb": src}, "m.emb")
+    if ex is not None or err:
+        return [{"key": "cpp-phase-rejected", "msg": "%r %r" % (err, ex), "detail": {"source": src}}], 0
+    runs = []
+    masks = []
+    for k, a in enumerate(asts):
+        vs = set(variables(a))
+        mask = 0
+        for i, v in enumerate(VAR_ORDER):
+            if v in vs:
+                mask |= 1 << i
+        masks.append(mask)
+        runs.append("  RUN(%d, e%d, %dL)" % (k, k, mask))
+    corners = ", ".join("{%s}" % ", ".join("%dLL" % x if abs(x) < 2 ** 63 else ("(long long)%dULL" % (x % 2 ** 64))
+                                             for x in (CORNER[v] + [0] * (8 - len(CORNER[v])))) for v in VAR_ORDER)
+    drv = (CPP.replace("@NV@", str(len(VAR_ORDER))).replace("@CORNERS@", corners)
+           .replace("@NCORNER@", ", ".join(str(len(CORNER[v])) for v in VAR_ORDER)).replace("@ORDER@", " ".join(VAR_ORDER))
+           .replace("@RUNS@", "\n".join(runs)))
+    with cppdrv.Scratch() as sc:
+        res = cppdrv.build_and_run(sc, headers, "m.emb.h", drv,
+                                   flags=["-O1", "-fsanitize=undefined", "-fno-sanitize-recover=all", "-I", os.path.join(common.VERIF, "cpp")])
+    if res["compile_rc"] != 0:
+        import re as _re
+        key = "expression-header-does-not-compile"
+        m = _re.search(r"static assertion failed: ([^\n]*)", res["compile_err"])
+        if m and "Choice" in m.group(1):
+            key = "choice-constant-condition-static-assert"
+        return [{"key": key, "msg": res["compile_err"][-700:], "detail": {"source": src}}], 0
+    viol = []
+    lines = res["stdout"].decode("ascii", "replace").split("\n")
+    done = set()
+    nvals = 0
+    for line in lines:
+        if not line.startswith("E"):
+            continue
+        parts = line.split(" ")
+        k = int(parts[0][1:])
+        done.add(k)
+        a = asts[k]
+        vs = [v for v in VAR_ORDER if (masks[k] >> VAR_ORDER.index(v)) & 1]
+        # same odometer order as the driver: lowest variable index fastest
+        got = parts[1:]
+        envs = []
+        idx = [0] * len(vs)
+        while True:
+            envs.append({v: CORNER[v][idx[j]] for j, v in enumerate(vs)})
+            j = 0
+            while j < len(vs):
+                idx[j] += 1
+                if idx[j] < len(CORNER[vs[j]]):
+                    break
+                idx[j] = 0
+                j += 1
+            if j >= len(vs):
+                break
+        if len(envs) != len(got):
+            viol.append({"key": "cpp-phase-protocol", "msg": "%s: %d values for %d environments" % (labels[k], len(got), len(envs))})
+            continue
+        for env, g in zip(envs, got):
+            nvals += 1
+            if _has_bound(a):
+                continue
+            want = ev(a, env)
+            ws = ("T" if want else "F") if isinstance(want, bool) else str(want)
+            if g != ws:
+                viol.append({"key": "cpp-value-differs", "msg": "%s at %r: generated C++ returns %s, mathematical value %s" % (
+                    labels[k], env, g, ws), "detail": {"expression": labels[k], "env": {k2: str(v2) for k2, v2 in env.items()}}})
+                break
+    if res["run_rc"] != 0:
+        viol.append({"key": "cpp-run-failed:" + ("ubsan" if "runtime error" in res["stderr"] else "crash"),
+                     "msg": "expressions done %d/%d: %s" % (len(done), len(asts), res["stderr"][:500]),
+                     "detail": {"source": src}})
+    return viol, nvals
+
+
 def compile_batch(asts):
     e = common.emb()
     src = module_text(asts)
@@ -486,6 +630,7 @@ def check_case(case):
         fields = {f.name.name.text: f for f in st.field}
         for k, i in enumerate(g):
             stats["accepted"] += 1
+            case.setdefault("_accepted", []).append(i)
             label = text(exprs[i])
             v, nontriv = check_expr(e, exprs[i], fields["e%d" % k], ev_ir, label)
             for x in v[:2]:
@@ -494,6 +639,19 @@ def check_case(case):
                 viol.append(x)
             if nontriv:
                 nt.append(label)
+    # C++ phase on accepted expressions of this unit
+    acc = case.get("_accepted", [])
+    limit = 40 if tier == "quick" else 10 ** 9
+    acc = acc[:limit]
+    for lo in range(0, len(acc), 60):
+        chunk = acc[lo:lo + 60]
+        v, nv = cpp_phase([exprs[i] for i in chunk], [text(exprs[i]) for i in chunk])
+        stats["cpp_values"] = stats.get("cpp_values", 0) + nv
+        stats["cpp_expressions"] = stats.get("cpp_expressions", 0) + len(chunk)
+        for x in v[:3]:
+            x["subcase"] = {"tier": tier, "ids": chunk, "batch": 1}
+            viol.append(x)
+    case.pop("_accepted", None)
     return {"viol": viol[:30], "n": len(ids), "nt": nt, "stats": stats}
 
 
